@@ -234,3 +234,13 @@ func init() {
 	logging.Logger = zap.NewNop()
 	logging.N2n = zap.NewNop()
 }
+
+// TempDir is a scratch directory: a real temporary directory natively, a name in the
+// executor's in-memory file model symbolically.
+func TempDir() string {
+	d, err := os.MkdirTemp("", "verif-h-")
+	if err != nil {
+		panic(err)
+	}
+	return d
+}
